@@ -368,6 +368,26 @@ func c04Run(ci any) Result {
 			}
 		}
 	}
+	// "middleware added to a group after a route was registered does not apply to that route": an id handed to a
+	// group (at creation or by Use) in an op that comes after the registration of the handler that ran must not
+	// have gone in.  (Echo-level Pre/Use apply to every route whenever they were added.)
+	if handlerHid >= 0 {
+		at := -1
+		for i, o := range c.Ops {
+			if o.Kind == "add" && o.Hid == handlerHid {
+				at = i
+			}
+		}
+		for i, o := range c.Ops {
+			if at >= 0 && i > at && (o.Kind == "group" || o.Kind == "groupUse" || o.Kind == "host" || o.Kind == "add") {
+				for _, id := range o.Mws {
+					if seen[id] > 0 {
+						fail(fmt.Sprintf("middleware %d was registered (op %d, %s) after the route of handler %d (op %d) but ran for it: %s", id, i, o.Kind, handlerHid, at, res.Obs))
+					}
+				}
+			}
+		}
+	}
 	hostRegistered := func(h string) bool {
 		for _, o := range c.Ops {
 			if o.Kind == "host" && o.Name == h {
